@@ -546,14 +546,20 @@ REG_sd.post_hints = _sd_post_hints
 c = contract('PureScheduler._reset_tasks', F).param('self').returns('none')
 c.for_props('C02', 'C14')
 c.requires('self-is-scheduler', lambda c: is_sched(c.a.self))
-c.modifies('_task')
+c.modifies('_task', '_running')
+# every member is idle again: no task, and not running (is_running implies is_scheduled: C14)
 c.ensures('members-have-no-task', lambda c: (lambda j: ForAll([j], Implies(
     member(c.pre, c.a.self, j), c.cur.f('_task', j) == NONE), patterns=[c.cur.f('_task', j)]))(q()))
+c.ensures('members-are-not-running', lambda c: (lambda j: ForAll([j], Implies(
+    member(c.pre, c.a.self, j), Not(c.cur.f('_running', j))), patterns=[c.cur.f('_running', j)]))(q()), props=['C14'])
 c.ensures('frame[_task]', lambda c: unchanged_field(c.pre, c.cur, '_task', lambda o: member(c.pre, c.a.self, o)))
+c.ensures('frame[_running]', lambda c: unchanged_field(c.pre, c.cur, '_running', lambda o: member(c.pre, c.a.self, o)))
 c.loop(0, inv=[
     ('visited-have-no-task', lambda c: (lambda j: ForAll([j], Implies(
-        Select(c.visited, j), c.cur.f('_task', j) == NONE), patterns=[c.cur.f('_task', j)]))(q())),
-    ('others-untouched', lambda c: unchanged_field(c.pre, c.cur, '_task', lambda o: Select(c.visited, o))),
+        Select(c.visited, j), And(c.cur.f('_task', j) == NONE, Not(c.cur.f('_running', j)))),
+        patterns=[c.cur.f('_task', j)]))(q())),
+    ('others-untouched', lambda c: And(unchanged_field(c.pre, c.cur, '_task', lambda o: Select(c.visited, o)),
+                                      unchanged_field(c.pre, c.cur, '_running', lambda o: Select(c.visited, o)))),
 ])
 
 # ---------------------------------------------------------------- _set_sched_ids (contract assumed for now)
